@@ -45,9 +45,11 @@ def apply_op(L, kind, obj, op):
         c03_config.print_report(obj, a)  # every class inherits print_pipes()/print_details(); they re-read the shadows
         return
     if kind == "RF24":
-        if name in ("getters", "getp", "ctx"):
+        if name in ("getters", "getp", "ctx", "get"):
             if name == "getters":
                 c03_config.read_getters(obj, False)
+            elif name == "get":
+                getattr(obj, a[0])  # one getter on its own: it refreshes (only) its own shadow registers
             return
         c03_config.call_driver(obj, False, name, a)
         return
@@ -203,7 +205,7 @@ ALPHA = {
              ["open_rx_pipe", 0, B("a1a2a3a4a5")], ["open_rx_pipe", 0, B("b1b2")], ["open_rx_pipe", 1, B("c1c2c3c4c5")],
              ["open_rx_pipe", 1, B("d1d2d3")], ["open_rx_pipe", 2, B("e1")], ["open_rx_pipe", 5, B("f1")], ["close_rx_pipe", 0],
              ["close_rx_pipe", 1], ["open_tx_pipe", B("7172737475")], ["open_tx_pipe", B("9192")], ["listen", True],
-             ["listen", False], ["start_carrier_wave"]] + PRINTS,
+             ["listen", False], ["start_carrier_wave"], ["get", "ack"], ["get", "auto_ack"], ["get", "dynamic_payloads"]] + PRINTS,
     "FakeBLE": COMMON + [["ble_name", "nRF24"], ["ble_show_pa", True], ["ble_hop"], ["payload_length", 20], ["channel", 26],
                          ["set_auto_ack", True, 1], ["auto_ack", True], ["dynamic_payloads", True], ["set_dynamic_payloads", True, 2],
                          ["data_rate", 2], ["address_length", 5], ["ack", True], ["crc", 1], ["set_auto_retries", 250, 3], ["arc", 3],
